@@ -368,6 +368,12 @@ def rule_s9(repo):
         res.add(i.key, i.ok, i.detail, i.loc)
     return res
 
+def rule_s10(repo):
+    """A suggestion that is applied closes the subgoals that are already proved or trivial; the line numbers it works with
+    must survive its own removals (C13.A14), or the step removes another goal than it reported."""
+    from .c13 import stale_id_rule
+    return stale_id_rule(repo, 'C14.S10')
+
 
 def rules(repo):
-    return [rule_s1(repo), rule_s2(repo), rule_s3(repo), rule_s4(repo), rule_s5(repo), rule_s6(repo), rule_s7(repo), rule_s8(repo), rule_s9(repo)]
+    return [rule_s1(repo), rule_s2(repo), rule_s3(repo), rule_s4(repo), rule_s5(repo), rule_s6(repo), rule_s7(repo), rule_s8(repo), rule_s9(repo), rule_s10(repo)]
